@@ -320,12 +320,17 @@ func runC16(t *core.Tape, st *core.Stats) *core.Violation {
 	}
 
 	npairs := 0
+	wtext := fmt.Sprint(w.types)
 
 	for _, rs := range w.rels {
+		wtext += relText(rs.r)
+
 		if rs.twoWay {
 			npairs++
 		}
 	}
+
+	st.State(core.HashString(wtext))
 
 	if npairs >= 1 || len(w.rels) >= 2 {
 		st.MarkNonTrivial()
